@@ -144,6 +144,7 @@ class Size(tuple):
 _pybool = builtins.bool
 _pyint = builtins.int
 _pyfloat = builtins.float
+_pyabs = builtins.abs
 
 
 def mk(x, kind="f"):
@@ -198,7 +199,7 @@ def _e_imag(x):
 
 
 def _e_abs(x):
-    return abs(x)
+    return _pyabs(x)
 
 
 def _e_sqrt(x):
@@ -1498,6 +1499,22 @@ sin = _unary(_v_sin)
 exp = _unary(_v_exp)
 
 
+def _e_sign(x):
+    if isinstance(x, Sc):
+        return _ite(x > 0, Sc.const(1), _ite(x < 0, Sc.const(-1), Sc.const(0)))
+    return (x > 0) - (x < 0) + 0.0
+
+
+_v_sign = _vec1(_e_sign)
+
+
+def sign(t):
+    t = _t(t)
+    if t.dtype.kind in "ib":
+        return Tensor(np.sign(t.a), t.dtype)
+    return Tensor(_v_sign(t.a), t.dtype)
+
+
 def logical_not(t):
     return _t(t).logical_not()
 
@@ -1590,10 +1607,10 @@ def _close_elem(atol, rtol):
         if isinstance(d, Sc):
             if d.is_zero():
                 return True
-            ay = abs(y) if rtol else 0
+            ay = _pyabs(y) if rtol else 0
             tol = ay * rtol + atol if rtol else atol
             if isinstance(tol, Sc) and not tol.is_const():
-                return abs(d) <= tol
+                return _pyabs(d) <= tol
             tolv = tol if not isinstance(tol, Sc) else tol.re.const_value()
             if not d.im.t:
                 return sym_and(d.real <= tolv, d.real >= -tolv)
